@@ -69,6 +69,43 @@ def match_brace(s, i):
     return n
 
 
+BODIES = {}        # (path, key) -> normalised text of the function, filled by functions()
+LIT = re.compile(r"(?<![\w.])(0x[0-9a-fA-F_]+|0b[01_]+|0o[0-7_]+|[0-9][0-9_]*)(?:_?(?:u8|u16|u32|u64|u128|usize|i8|i16|i32|i64|i128|isize))?\b")
+
+
+def file_consts(path):
+    """values of the `const NAME: T = expr;` items of a file (only those that evaluate)"""
+    sys.path.insert(0, os.path.dirname(os.path.abspath(__file__)))
+    import extract
+    env = {}
+    try:
+        src = strip_comments(open(path, encoding="utf-8").read())
+    except OSError:
+        return env
+    for _ in range(3):
+        for cn, ce in re.findall(r"\b(?:const|static)\s+([A-Z_][A-Z0-9_]*)\s*:\s*[\w:<>\[\]; ]+?=\s*([^;]+);", src):
+            if cn not in env:
+                try:
+                    env[cn] = extract.ev(ce, env)
+                except Exception:
+                    pass
+    return env
+
+
+def literals_of(body, env):
+    """integer literals of a function body and the values of the upper-case constants it mentions"""
+    out = set()
+    for m in LIT.finditer(body):
+        try:
+            out.add(int(m.group(1).replace("_", ""), 0))
+        except ValueError:
+            pass
+    for name in set(re.findall(r"\b([A-Z][A-Z0-9_]{2,})\b", body)):
+        if name in env:
+            out.add(env[name])
+    return out
+
+
 def functions(path):
     src = strip_comments(open(path, encoding="utf-8").read())
     # drop `#[cfg(test)] mod … { … }`
@@ -112,6 +149,7 @@ def functions(path):
         while k in res:
             n += 1; k = f"{key} #{n}"
         res[k] = hashlib.sha1(body.encode()).hexdigest()[:16]
+        BODIES[(path, k)] = body
     return res
 
 
@@ -162,11 +200,49 @@ def drift(files=None):
             "functions_compared": sum(1 for k in cur if keep(k))}
 
 
+def hints(limit=16):
+    """numbers worth aiming the generators at: integer literals (and values of named constants) in the
+    functions whose text differs from the baseline -- those that are new in the function first.  Empty on an
+    unchanged tree.  Only ever *adds* generated inputs; never part of a verdict."""
+    try:
+        basef = json.load(open(BASE))
+        base, blits = basef["functions"], basef.get("literals", {})
+    except Exception:
+        return []
+    cur = fingerprint()
+    new, old = [], []
+    envs = {}
+    for (path, k), body in BODIES.items():
+        rel = os.path.relpath(path, REPO)
+        key = f"{rel} :: {k}"
+        if base.get(key) == cur.get(key):
+            continue
+        if path not in envs:
+            envs[path] = file_consts(path)
+        ls = literals_of(body, envs[path])
+        before = set(blits.get(key, []))
+        for x in sorted(ls):
+            if 2 <= x <= 3_000_000:
+                (old if x in before else new).append(x)
+    out = []
+    for x in new + old:
+        if x not in out:
+            out.append(x)
+    return out[:limit]
+
+
 if __name__ == "__main__":
     if len(sys.argv) > 1 and sys.argv[1] == "--write-baseline":
         import subprocess
         head = subprocess.run(["git", "-C", REPO, "rev-parse", "HEAD"], capture_output=True, text=True).stdout.strip()
-        json.dump({"repo_commit": head, "functions": fingerprint()}, open(BASE, "w"), indent=0, sort_keys=True)
+        fp = fingerprint()
+        lits = {}
+        for (path, k), body in BODIES.items():
+            rel = os.path.relpath(path, REPO)
+            lits[f"{rel} :: {k}"] = sorted(x for x in literals_of(body, file_consts(path)) if x < (1 << 64))
+        json.dump({"repo_commit": head, "functions": fp, "literals": lits}, open(BASE, "w"), indent=0, sort_keys=True)
         print(f"baseline written for {head}")
+    elif len(sys.argv) > 1 and sys.argv[1] == "--hints":
+        print(",".join(str(x) for x in hints()))
     else:
         print(json.dumps(drift(sys.argv[1:] or None), indent=1))
